@@ -21,7 +21,7 @@ RULE = ("same-kind pairs and triples from pools of ints+decimals (around 2^53/2^
         "changed through an alias); a case is non-trivial when the two "
         "values are not identical; distinct = distinct abstract tuples")
 ASSUMPTIONS = [
-    "mixed-kind comparison (text fallback) is deliberately not asserted",
+    "which way values of different kinds compare is not asserted here (C12 asserts that the order across kinds is a strict total one)",
     "NaN/inf excluded",
     "lists are compared only when the first differing position holds same-kind elements",
 ]
